@@ -104,7 +104,8 @@ func VerifC01_SetTime() {
 	h := int(dg[8])*10 + int(dg[9])
 	mi := int(dg[10])*10 + int(dg[11])
 	s := int(dg[12])*10 + int(dg[13])
-	verifAssume(y >= 1 && verifValidDate(y, mo, dd) && h <= 23 && mi <= 59 && s <= 59)
+	// years 0000/0001 are within a zone offset of the zero instant (the 'no value' date-time): excluded
+	verifAssume(y >= 2 && verifValidDate(y, mo, dd) && h <= 23 && mi <= 59 && s <= 59)
 	t := time.Date(y, time.Month(mo), dd, h, mi, s, 0, time.Local)
 	u.SetTime(id, t)
 	want := specReq(0x30, id)
